@@ -34,12 +34,12 @@ func (f verifEndpoints) AccessFor(rawurl string) creds.Access {
 	return creds.NewAccess(creds.NoneAccess, rawurl)
 }
 func (f verifEndpoints) SetAccess(access creds.Access) {}
-func (f verifEndpoints) GitProtocol() string          { return "https" }
+func (f verifEndpoints) GitProtocol() string           { return "https" }
 
 // what the scripted server saw
 type verifSeen struct {
 	method, url, accept, ctype, body string
-	header                         http.Header
+	header                           http.Header
 }
 
 var verifSeenReqs []verifSeen
@@ -297,4 +297,77 @@ func VerifC18_VerifyRequest() {
 	verifAssert(verifJSONKind(seen.body, "") == "object" && verifJSONLen(seen.body, "") == 2, "the verify body has exactly oid and size")
 	verifAssert(verifJSONString(seen.body, "oid") == oid, "the verify body names the uploaded object")
 	verifAssert(verifJSONKind(seen.body, "size") == "number" && verifJSONInt(seen.body, "size") == size, "the verify body carries its size")
+}
+
+var verifHTTPSeen []*http.Request
+
+func verifDoHTTPStub(a *adapterBase, t *Transfer, req *http.Request) (*http.Response, error) {
+	verifHTTPSeen = append(verifHTTPSeen, req)
+	return &http.Response{StatusCode: 200, Header: http.Header{}, Body: io.NopCloser(strings.NewReader(""))}, nil
+}
+
+// VerifC18_BasicUpload: the PUT of a basic upload goes to the upload action's
+// href and carries every header the action offered with the offered value
+// (a Content-Type offered by the server is never replaced, whatever
+// lfs.contenttype says); without an offered Content-Type one is added, and it
+// is application/octet-stream when detection is switched off.
+func VerifC18_BasicUpload() {
+	verifHTTPSeen = nil
+	root := verifTempDir()
+	content := "hello, object\n"
+	verifFSWrite(root+"/object.bin", content, 0644)
+	href := "https://storage.example.com/upload/abc"
+	names := [][]string{{}, {"Authorization"}, {"Content-Type"}, {"Content-Type", "X-Amz-Meta"}, {"Transfer-Encoding"}}[verifChoose("action.headers", 5)]
+	rel := &Action{Href: href}
+	var vals []string
+	if len(names) > 0 {
+		rel.Header = map[string]string{}
+	}
+	for _, n := range names {
+		v := verifNondetString("header.value")
+		verifAssume(len(v) >= 1 && len(v) <= 16)
+		verifAssumeAlphabet(v, "azAZ09//--")
+		if n == "Transfer-Encoding" && verifChoose("chunked", 2) == 1 {
+			v = "chunked"
+		}
+		rel.Header[n] = v
+		vals = append(vals, v)
+	}
+	gitcfg := []map[string][]string{
+		{},
+		{"lfs.contenttype": {"false"}},
+		{"lfs.https://storage.example.com/.contenttype": {"false"}},
+		{"lfs.contenttype": {"true"}},
+	}[verifChoose("contenttype.config", 4)]
+	api := lfsapi.VerifNewClientGit(verifEndpoints{url: "https://lfs.example.com/repo.git/info/lfs"}, gitcfg)
+	a := &basicUploadAdapter{newAdapterBase(nil, BasicAdapterName, Upload, nil)}
+	a.apiClient = api
+	a.remote = "origin"
+	t := &Transfer{Oid: verifHashHex([]byte(content)), Size: int64(len(content)), Path: root + "/object.bin", Name: "object.bin", Actions: ActionSet{"upload": rel}}
+	err := a.DoTransfer(nil, t, nil, nil)
+	verifAssert(err == nil, "the upload succeeds when the server answers 200")
+	verifAssert(len(verifHTTPSeen) == 1, "one PUT is sent")
+	verifCover("upload-request")
+	req := verifHTTPSeen[0]
+	verifAssert(req.Method == "PUT" && req.URL.String() == href, "PUT to the upload action's href")
+	offeredCT := ""
+	for k, n := range names {
+		verifAssert(req.Header.Get(n) == vals[k], "every offered header is sent with the offered value")
+		if n == "Content-Type" {
+			offeredCT = vals[k]
+		}
+	}
+	if offeredCT == "" {
+		verifAssert(req.Header.Get("Content-Type") != "", "a Content-Type is added when the action offers none")
+		_, off1 := gitcfg["lfs.contenttype"]
+		_, off2 := gitcfg["lfs.https://storage.example.com/.contenttype"]
+		if (off1 && gitcfg["lfs.contenttype"][0] == "false") || off2 {
+			verifAssert(req.Header.Get("Content-Type") == "application/octet-stream", "with detection off the generic type is used")
+		}
+	}
+	if req.Header.Get("Transfer-Encoding") == "chunked" {
+		verifCover("chunked")
+	} else {
+		verifAssert(req.Header.Get("Content-Length") == "14" && req.ContentLength == 14, "Content-Length is the object's size")
+	}
 }
